@@ -11,7 +11,9 @@ use redis_sim::simulator::VirtualTime;
 use serde_json::{json, Value};
 use std::collections::BTreeMap;
 
-pub const EPOCH_MS: i64 = 1_700_000_000_000;
+/// not a whole second: the production shard actor starts at an arbitrary instant, and the second- and
+/// millisecond-based epochs of the executor must agree for every sub-second part
+pub const EPOCH_MS: i64 = 1_700_000_000_437;
 
 /// argv -> Command through the production decode path (RespCodec + from_resp_zero_copy)
 pub fn parse_argv(a: &Argv) -> Result<Command, String> {
